@@ -47,6 +47,10 @@ txn ApplicationArgs 0; byte "bcreate"; ==; bnz bcreate
 txn ApplicationArgs 0; byte "bput"; ==; bnz bput
 txn ApplicationArgs 0; byte "bdel"; ==; bnz bdel
 txn ApplicationArgs 0; byte "bresize"; ==; bnz bresize
+txn ApplicationArgs 0; byte "bshrinkgrow"; ==; bnz bshrinkgrow
+txn ApplicationArgs 0; byte "bsplice"; ==; bnz bsplice
+txn ApplicationArgs 0; byte "breplace"; ==; bnz breplace
+txn ApplicationArgs 0; byte "bread"; ==; bnz bread
 txn ApplicationArgs 0; byte "pay"; ==; bnz pay
 txn ApplicationArgs 0; byte "payclose"; ==; bnz payclose
 txn ApplicationArgs 0; byte "acreate"; ==; bnz acreate
@@ -74,7 +78,25 @@ bput:
 bdel:
  txn ApplicationArgs 1; box_del; pop; b ok
 bresize:
+ txn ApplicationArgs 1; box_len; bz popok; pop
  txn ApplicationArgs 1; txn ApplicationArgs 2; btoi; box_resize; b ok
+bshrinkgrow:
+ txn ApplicationArgs 1; box_len; bz popok; pop
+ txn ApplicationArgs 1; txn ApplicationArgs 2; btoi; box_resize
+ txn ApplicationArgs 1; txn ApplicationArgs 3; btoi; box_resize
+ b ok
+bsplice:
+ txn ApplicationArgs 1; box_len; bz popok; pop
+ txn ApplicationArgs 1; txn ApplicationArgs 2; btoi; txn ApplicationArgs 3; btoi; txn ApplicationArgs 4; box_splice
+ b ok
+breplace:
+ txn ApplicationArgs 1; box_len; bz popok; pop
+ txn ApplicationArgs 1; int 0; txn ApplicationArgs 2; box_replace
+ b ok
+bread:
+ txn ApplicationArgs 1; box_get; bz popok; log; b ok
+popok:
+ pop; b ok
 pay:
  itxn_begin
  int pay; itxn_field TypeEnum
@@ -251,6 +273,11 @@ func evkNewWorld(t *testing.T, cv protocol.ConsensusVersion, rewardsOff bool) (*
 		return nil, err
 	}
 	w.tinyV = ops.Program
+	if full, err := logic.AssembleStringWithVersion(evkSrc(evkAppSource), w.proto.LogicSigVersion); err != nil {
+		return nil, fmt.Errorf("evk app does not assemble: %v", err)
+	} else if len(full.Program) > 1900 {
+		return nil, fmt.Errorf("evk app is %d bytes: would need an extra program page", len(full.Program))
+	}
 
 	mkasset := &txntest.Txn{Type: "acfg", Sender: addrs[0], AssetParams: basics.AssetParams{
 		Total: 1_000_000, UnitName: "evk", Manager: addrs[0], Freeze: addrs[0], Clawback: addrs[0], Reserve: addrs[0]}}
@@ -552,7 +579,7 @@ func evkFirstDiff(a, b string) string {
 
 func evkTrunc(s string, n int) string {
 	if len(s) > n {
-		return s[:n] + "…"
+		return s[:n]
 	}
 	return s
 }
